@@ -108,6 +108,107 @@ def driver_tasks(repo):
     return drivers
 
 
+def ping_loop_model(ctx, repo, rule):
+    """GeckoAsyncSpa._ping_loop by interpretation: the spa is built by its constructor (facts.ConnectionModel, not
+    connected), its protocol is a model whose get() answers the first two pings and then none, whose endpoint stays open
+    for 14 rounds; the sleeping call advances a model clock by the delay it is given.  Observed: one ping per round, sent
+    with a budget of one attempt; PING_RECEIVED for each answer, PING_MISSED for each miss, and PING_NO_RESPONSE on a
+    miss exactly once the time since the last answer exceeds PING_DEVICE_NOT_RESPONDING_TIMEOUT - so that an unreachable
+    spa IS reported, and not before the timeout."""
+    from ..absint import BoundMethod, Native, Obj, PyRaise, Undecided
+    from ..facts import ConnectionModel
+    pl = repo.method("GeckoAsyncSpa", "_ping_loop")
+    cfgmod = repo.mod("config.py")
+    idle = cfgmod.classes.get("_GeckoIdleConfig")
+    TIMEOUT = repo.try_fold(idle.consts.get("PING_DEVICE_NOT_RESPONDING_TIMEOUT_IN_SECONDS"), cfgmod) if idle is not None else None
+    if not isinstance(TIMEOUT, (int, float)):
+        raise AnalysisError("PING_DEVICE_NOT_RESPONDING_TIMEOUT_IN_SECONDS of the idle table does not fold to a number")
+    cm = ConnectionModel(repo, connect=False)
+    it = cm.it
+    st = {"clock": 1000.0, "round": 0, "gets": [], "last_answer": 1000.0, "log": []}
+    ROUNDS, ANSWERED = 14, 2
+
+    def get(a, k):
+        st["round"] += 1
+        budget = a[2] if len(a) > 2 else k.get("retry_count", "<default>")
+        st["gets"].append(budget)
+        if st["round"] <= ANSWERED:
+            st["last_answer"] = st["clock"]
+            return Obj(None, {"_sequence": 0}, name="ping-reply")
+        return None
+    proto = Obj(None, {"get": Native(get, "get"), "queue_send": Native(lambda a, k: None), "disconnect": Native(lambda a, k: None)}, name="protocol")
+    found = False
+    for k_, v_ in list(cm.spa.attrs.items()):
+        if k_.endswith("protocol") and v_ is None:
+            cm.spa.attrs[k_] = proto
+            found = True
+    if not found:
+        cm.it.setattr(cm.spa, "_protocol", proto)
+    events = cm.events
+
+    def ahook(it_, base, attr):
+        if base is proto and attr == "isopen":
+            return st["round"] < ROUNDS
+        return NotImplemented
+
+    def chook(it_, node, callee, args, kwargs):
+        nm = getattr(callee, "name", "")
+        if nm == "time.monotonic":
+            return st["clock"]
+        if nm == "asyncio.sleep" or getattr(getattr(callee, "fi", None), "name", "") == "config_sleep":
+            d = args[0] if args and isinstance(args[0], (int, float)) else 1.0
+            st["log"].append((st["round"], len(events), st["clock"]))
+            st["clock"] += float(d)
+            return None
+        if nm.startswith("datetime"):
+            return Obj(None, {"replace": Native(lambda a, k: "2026-01-01T00:00:00Z")}, name="utcnow")
+        return NotImplemented
+    it.attr_hook, it.call_hook = ahook, chook
+    it.globals["GeckoConfig"] = Obj(idle)
+    before = len(events)
+    try:
+        it.steps = 0
+        it.call(pl, cm.spa, [])
+        outcome = None
+    except PyRaise as e:
+        outcome = e.what
+    except Undecided as e:
+        raise AnalysisError(f"{pl.qual} on the model connection: {e}")
+    ev = events[before:]
+    ctx.ob(rule, "_ping_loop::runs-while-open", outcome is None and st["round"] == ROUNDS,
+           f"the ping loop on an endpoint that stays open for {ROUNDS} rounds: {st['round']} ping(s) sent, outcome {outcome!r}", pl.loc)
+    ctx.ob(rule, "_ping_loop::pings-every-iteration", len(st["gets"]) == st["round"] and all(b == 1 for b in st["gets"]),
+           f"pings are sent with retry budgets {st['gets'][:5]}, expected one attempt (budget 1) per round: a ping that retries for long delays the report of a lost spa", pl.loc)
+    # per round: which events were raised (events between two sleeps)
+    marks = [m[1] for m in st["log"]]
+    per_round, prev = [], 0
+    for m in marks:
+        per_round.append(ev[prev:m])
+        prev = m
+    clocks = [m[2] for m in st["log"]]
+    bad = []
+    reported = False
+    last_answer = None
+    for i, (evs, clk) in enumerate(zip(per_round, clocks), start=1):
+        if i <= ANSWERED:
+            last_answer = clk
+            if "RUNNING_PING_RECEIVED" not in evs or "RUNNING_PING_NO_RESPONSE" in evs or "RUNNING_PING_MISSED" in evs:
+                bad.append((i, evs, "answered"))
+            continue
+        overdue = last_answer is not None and clk - last_answer > TIMEOUT
+        if "RUNNING_PING_MISSED" not in evs or "RUNNING_PING_RECEIVED" in evs:
+            bad.append((i, evs, "missed"))
+        if ("RUNNING_PING_NO_RESPONSE" in evs) != overdue:
+            bad.append((i, evs, f"{clk - last_answer:.0f}s since the last answer, timeout {TIMEOUT}s"))
+        reported = reported or "RUNNING_PING_NO_RESPONSE" in evs
+    ctx.ob(rule, "_ping_loop::raises-no-response", reported,
+           f"the spa stops answering after round {ANSWERED}; over {ROUNDS} rounds ({clocks[-1] - clocks[0] if clocks else 0:.0f}s of model time, timeout {TIMEOUT}s) the ping loop never raises "
+           f"RUNNING_PING_NO_RESPONSE: an unreachable spa is never reported", pl.loc, sample={"rule": rule, "rounds": ROUNDS, "events_per_round": [list(e) for e in per_round[:6]]})
+    ctx.ob(rule, "_ping_loop::no-response-on-missed-path", not bad,
+           f"per round (round, events, situation): {bad[:3]} - expected PING_RECEIVED on an answer, PING_MISSED on a miss, and PING_NO_RESPONSE on a miss exactly when more than {TIMEOUT}s have passed since the last answer",
+           pl.loc)
+
+
 def check(ctx):
     repo = Repo()
     cg = callgraph(repo)
@@ -271,20 +372,7 @@ def check(ctx):
     reset_survives_self_cancel(ctx, repo, "R2")
 
     # ---- R3 loss reported ---------------------------------------------------------------
-    pl = repo.method("GeckoAsyncSpa", "_ping_loop")
-    gp = cfg_of(pl)
-    nr = [(n, c) for n, c in calls_named(gp, "_event_handler") if c.args and ast.unparse(c.args[0]).endswith("RUNNING_PING_NO_RESPONSE")]
-    ctx.ob("R3", "_ping_loop::raises-no-response", len(nr) >= 1, "the ping loop never raises RUNNING_PING_NO_RESPONSE: an unreachable spa is never reported", pl.loc)
-    for n, c in nr:
-        facts = gp.iter_guard_atoms(n)
-        missed = ("ping_handler is None", True) in facts
-        timed = any("PING_DEVICE_NOT_RESPONDING_TIMEOUT_IN_SECONDS" in t and "_last_ping" in t for t, p in facts)
-        ctx.ob("R3", "_ping_loop::no-response-on-missed-path", missed and timed,
-               f"RUNNING_PING_NO_RESPONSE is not raised exactly on the missed-ping path after the not-responding timeout; guards {sorted(map(str, facts))}", loc(pl, n.ast),
-               sample={"rule": "R3", "guards": sorted(t for t, p in facts)})
-    # loop keeps running while open and pings with retry count 1
-    gets = [(n, c) for n, c in calls_named(gp, "get") if receiver(c) == "self._protocol"]
-    ctx.ob("R3", "_ping_loop::pings-every-iteration", len(gets) == 1 and gp.loop_of(gets[0][0]) is not None, "ping loop does not send one ping per iteration", pl.loc)
+    ping_loop_model(ctx, repo, "R3")
     _o = rel[("CONNECTED", True, "RUNNING_PING_NO_RESPONSE")]
     ok = isinstance(_o.get("final"), str) and _o["final"].startswith("ERROR_") and "raises" not in _o
     ctx.ob("R3", "NO_RESPONSE::leaves-CONNECTED", ok, f"RUNNING_PING_NO_RESPONSE in CONNECTED leaves the manager in {_o.get('final')}: not an error state, the loss is not reported", he.loc)
